@@ -261,6 +261,42 @@ def r2_temperature(ctx):
               "annealing-off configurations still change the temperature", construct="annealing-off early return (initialise)")
 
 
+def r7_annealing_count_single_writer(ctx):
+    """The number of annealing iterations is the configured one: a count given explicitly has priority over the fraction, and the only
+    statement that derives it from the fraction is the constructor's, when no count was given."""
+    from ..astq import Canon
+    ctx.rule("C19.R7", "annealing.n_iter is written by the constructor only, and only when no count was configured (package-wide)", 1)
+    n = 0
+    for f in ctx.ix.iter_funcs():
+        cfg = None
+        for st in statements(f.node):
+            hit = None
+            if isinstance(st, (ast.Assign, ast.AugAssign)):
+                for t in (st.targets if isinstance(st, ast.Assign) else [st.target]):
+                    if isinstance(t, ast.Subscript) and isinstance(t.slice, ast.Constant) and t.slice.value == "n_iter" and "annealing" in U(t.value):
+                        hit = t
+            elif isinstance(st, ast.Expr) and isinstance(st.value, ast.Call) and isinstance(st.value.func, ast.Attribute) and "annealing" in U(st.value.func.value) \
+                    and st.value.func.attr in ("update", "setdefault", "pop") and ("n_iter" in U(st.value)):
+                hit = st.value
+            if hit is None:
+                continue
+            n += 1
+            in_ctor = f.mod == ANN and f.qual == f"{CLS}.__init__"
+            if not in_ctor:
+                ctx.violation("C19.R7", f, st, f"`{U(st)[:80]}` rewrites the number of annealing iterations outside the constructor: an explicitly configured `annealing.n_iter` is replaced, "
+                              "so the plateau boundaries and the end of the annealing are not the configured ones (the temperature is not 1 when the configured annealing iterations are over)")
+                continue
+            cfg = cfg or CFG(f.node)
+            nid = cfg.node_of(st)
+            cn = Canon(f.node)
+            guards = [(cn.text(cfg.stmt[h].test, True), lab) for h, lab in cfg.if_guards(nid)]
+            import re as _re
+            ok = any(_re.search(r"\['annealing'\](\['n_iter'\]|\.get\('n_iter'(, None)?\)) is None$", g) and lab for g, lab in guards)
+            ctx.check(ok, "C19.R7", f, st, "derived from the fraction only when no count was given", "the constructor derives annealing.n_iter from the fraction even when a count was configured")
+    if n == 0:
+        ctx.unknown("C19.R7", (ANN, f"{CLS}.__init__"), None, "no statement writes annealing.n_iter any more", construct="writers of annealing.n_iter")
+
+
 def r3b_rolling_window(ctx):
     """'change only at multiples of the acceptance-history length ... only for blocks whose mean acceptance rate left the band': the mean is
     taken over a window of exactly `acceptation_history_length` steps - each update drops the oldest row and appends the newest."""
@@ -466,6 +502,7 @@ def rules(ctx):
     r2_temperature(ctx)
     r3_std(ctx)
     r3b_rolling_window(ctx)
+    r7_annealing_count_single_writer(ctx)
     r4_configuration_reaches_object(ctx)
     r5_temperature_updated_every_iteration(ctx)
     # the annealing counts an algorithm derives (annealing.n_iter from its fraction, the plateau length) stay in its own copy of the parameters (same rule as C11.R7)
